@@ -3,8 +3,8 @@ package PKG
 // Go-source model of package context (symbolic mode only; native replays use
 // the real package). Contract: cancellation closes Done() of the node and of
 // every descendant, Err() is non-nil afterwards, Value walks to the root.
-// A context made by WithTimeout/WithDeadline may additionally expire at any
-// point where vmCtxTick is called on it (stores written in harnesses do that).
+// A context made by WithTimeout/WithDeadline expires when a harness store
+// calls vmCtxExpire on it (a symbolic choice made by that store).
 
 import (
 	"context"
@@ -158,18 +158,16 @@ func vmCtxWithValue(parent context.Context, key, val any) context.Context {
 	return &vmCtx{parent: vmAsCtx(parent), key: key, val: val}
 }
 
-// vmCtxTick lets a deadline context expire now (symbolic choice). Called by
-// harness stores at the points where a real store would consult the context.
-func vmCtxTick(ctx context.Context) {
+// vmCtxExpire makes the nearest deadline context above ctx expire now. Harness
+// stores call it at the point where a real store would notice the deadline.
+func vmCtxExpire(ctx context.Context) {
 	c, ok := ctx.(*vmCtx)
 	if !ok {
 		return
 	}
 	for n := c; n != nil; n = n.parent {
 		if n.mayExpire {
-			if vBool() {
-				n.cancel(context.DeadlineExceeded)
-			}
+			n.cancel(context.DeadlineExceeded)
 			return
 		}
 	}
